@@ -5,7 +5,7 @@ keeps the history of earlier outcomes (a miss followed by a strengthening)."""
 import json, subprocess, sys, time
 pid = sys.argv[1]; note = " ".join(sys.argv[2:])
 d = f"/verif/seeded/{pid}"
-out = subprocess.run(["/verif/tools/mutate.sh", f"{d}/patch.diff", pid], capture_output=True, text=True, env={**__import__("os").environ, "VERIF_TIMEOUT": "2400s"}).stdout.strip().split("\n")
+out = subprocess.run(["/verif/tools/mutate.sh", f"{d}/patch.diff", pid], capture_output=True, text=True, errors="replace", env={**__import__("os").environ, "VERIF_TIMEOUT": "2400s"}).stdout.strip().split("\n")
 detected = out[-1].endswith("exit 1")
 m = json.load(open(f"{d}/meta.json"))
 h = m.setdefault("check_history", [])
